@@ -48,7 +48,10 @@ class Management:
 
     def process(self, telegram: Telegram) -> None:
         """Process incoming telegrams."""
-        if isinstance(telegram.tpci, TDataConnected):
+        conn = self._connections.get(telegram.source_address)
+        if isinstance(telegram.tpci, TDataConnected) and (
+            conn is None or conn.acknowledges(telegram.tpci.sequence_number)
+        ):
             ack = Telegram(
                 destination_address=telegram.source_address,
                 tpci=TAck(sequence_number=telegram.tpci.sequence_number),
@@ -56,7 +59,7 @@ class Management:
             self.xknx.task_registry.background(
                 self.xknx.cemi_handler.send_telegram(ack)
             )
-        if conn := self._connections.get(telegram.source_address):
+        if conn:
             conn.process(telegram)
             return
         if telegram.tpci.numbered:
@@ -275,6 +278,18 @@ class P2PConnection:
                 self._ack_waiter.cancel()
             self._response_waiter.cancel()
             self.disconnect_hook()  # remove connection from management class
+
+    def acknowledges(self, sequence_number: int) -> bool:
+        """Return if a received numbered data telegram shall be acknowledged.
+
+        Of a connection, only telegrams received while it is open and carrying the
+        expected sequence number, or the one before it (a repetition whose T_ACK
+        got lost), are acknowledged.
+        """
+        return self._connected and sequence_number in (
+            self._expected_sequence_number,
+            self._expected_sequence_number - 1 & 0xF,
+        )
 
     def process(self, telegram: Telegram) -> None:
         """Process incoming telegrams."""
